@@ -354,6 +354,16 @@ func isAtomicType(t types.Type) bool {
 	return ok && n.Obj().Pkg() != nil && n.Obj().Pkg().Path() == "sync/atomic"
 }
 
+func syncName(t types.Type) string {
+	if p, ok := t.(*types.Pointer); ok {
+		t = p.Elem()
+	}
+	if n, ok := t.(*types.Named); ok {
+		return n.Obj().Name()
+	}
+	return ""
+}
+
 func isSyncType(t types.Type, name string) (ptr bool, ok bool) {
 	if p, isP := t.(*types.Pointer); isP {
 		t = p.Elem()
@@ -420,6 +430,32 @@ func seamEdits(fset *token.FileSet, j *fileJob, ti *types.Info, info *Info) erro
 				return true
 			}
 			recv := sel.Recv()
+			// a sync primitive reached through embedded fields (struct{ sync.Mutex; ... }):
+			// resolve the path to the embedded field and treat that field as the receiver
+			embedded := ""
+			if fnObj, ok := sel.Obj().(*types.Func); ok && len(sel.Index()) > 1 {
+				if sig, ok := fnObj.Type().(*types.Signature); ok && sig.Recv() != nil {
+					if _, isSync := isSyncType(sig.Recv().Type(), syncName(sig.Recv().Type())); isSync {
+						t := recv
+						for _, idx := range sel.Index()[:len(sel.Index())-1] {
+							if p, ok := t.Underlying().(*types.Pointer); ok {
+								t = p.Elem()
+							}
+							st, ok := t.Underlying().(*types.Struct)
+							if !ok {
+								embedded = ""
+								break
+							}
+							f := st.Field(idx)
+							embedded += "." + f.Name()
+							t = f.Type()
+						}
+						if embedded != "" {
+							recv = t
+						}
+					}
+				}
+			}
 			for _, ty := range []string{"Pool", "Mutex", "RWMutex", "Once"} {
 				ptr, ok := isSyncType(recv, ty)
 				if !ok {
@@ -446,12 +482,11 @@ func seamEdits(fset *token.FileSet, j *fileJob, ti *types.Info, info *Info) erro
 					err = fmt.Errorf("%s:%d: sync.%s.%s is not understood by the simulator", j.rel, fset.Position(x.Pos()).Line, ty, se.Sel.Name)
 					return false
 				}
-				// the selection may go through embedded fields / implicit address-of
-				if len(sel.Index()) != 1 {
+				if len(sel.Index()) != 1 && embedded == "" {
 					err = fmt.Errorf("%s:%d: sync.%s reached through an embedded field is not understood by the simulator", j.rel, fset.Position(x.Pos()).Line, ty)
 					return false
 				}
-				recvTxt := "(" + src(se.X) + ")"
+				recvTxt := "(" + src(se.X) + embedded + ")"
 				if !ptr {
 					recvTxt = "&" + recvTxt
 				}
